@@ -88,7 +88,7 @@ register("C03", module="histchecks", fn="case_c03", replay="replay_c03", binarie
          assumptions=HIST_ASSUME + ["must-run is not asserted here (C01 decides that through outputs)"], components={"real": REAL_WHOLE, "stub": STUB_WHOLE})
 
 register("C32", module="histchecks", fn="case_c32", replay="replay_c32", binaries=("simplz",),
-         cases={"quick": 20, "thorough": 500}, budget={"quick": 280, "thorough": 3300}, level="fault_enumeration",
+         cases={"quick": 16, "thorough": 500}, budget={"quick": 280, "thorough": 3300}, level="fault_enumeration",
          rule="history = generated repository, optional earlier successful build, 1-2 edits, then a victim `plz build` whose mutating filesystem operations are counted in an uncrashed dry run under the same seed; the build is then re-run from a restored copy of the pre-build state and killed with SIGKILL before FS operation n (8 sampled n per history in quick, EVERY n in thorough; files open for writing are cut to a PRNG prefix in 70% of crashes), plus a kill issued from inside a running build command after its first output; afterwards a normal build must exit 0 with outputs equal to a clean build, and a third build must run nothing; evaluations = simulated invocations; distinct_nontrivial = distinct (history, crash point) pairs whose crash actually fired and whose recovery was checked",
          assumptions=["crash model = SIGKILL of the plz process: kernel state (page cache, xattrs, renames) survives, nothing deferred runs", "build commands are atomic steps of the simulation, so a crash lands between FS operations of plz itself or at the scripted point inside a command"] + HIST_ASSUME,
          components={"real": REAL_WHOLE, "stub": STUB_WHOLE})
@@ -119,7 +119,7 @@ register("C13", module="cachechecks", fn="case_c13", replay="replay_harness", bi
 
 register("C17", module="schedchecks", fn="case_c17", replay="replay_c17", binaries=("simplz",),
          cases={"quick": 40, "thorough": 1500}, budget={"quick": 240, "thorough": 3000}, level="exploration",
-         rule="case = a subincluded build_defs exporting nested list/dict globals and functions returning list/dict literals, and 2-5 packages that each apply 0-3 idioms from a catalogue of 25 mutation / re-ordering forms (index and key assignment at depth 1-2, +=, sorted, reversed, aliasing through locals, comprehensions, on globals, on nested values and on values returned by exported functions) and then define a target whose attribute prints everything the build_defs exports; every package is first parsed alone, then all packages that parse alone are parsed together in 4 (quick) / 10 (thorough) seeded schedules with statement-level yields inside the interpreter, permuted request order and 1-8 parse threads; oracle: each package defines exactly what it defines alone; distinct_nontrivial = distinct schedule traces of joint parses",
+         rule="case = a subincluded build_defs exporting nested list/dict globals and functions returning list/dict literals, and 2-5 packages that each apply 0-3 idioms from a catalogue of 35 mutation / re-ordering forms (index and key assignment at depth 1-2, +=, sorted, reversed, aliasing through locals, comprehensions, on globals, on nested values and on values returned by exported functions) and then define a target whose attribute prints everything the build_defs exports; every package is first parsed alone, then all packages that parse alone are parsed together in 4 (quick) / 10 (thorough) seeded schedules with statement-level yields inside the interpreter, permuted request order and 1-8 parse threads; oracle: each package defines exactly what it defines alone; distinct_nontrivial = distinct schedule traces of joint parses",
          assumptions=["the program space is a seeded catalogue, not all programs: this decides the order/concurrency half of the property", "interleaving inside the interpreter is at statement granularity (named extra yield sites at interpretStatements)"],
          components={"real": REAL_WHOLE, "stub": STUB_WHOLE})
 
